@@ -302,6 +302,10 @@ def grammar_jwe(fz: Fz, rng):
             vals = [v for v in P2C_VALUES if not (isinstance(v, int) and not isinstance(v, bool) and v in P2C_SLOW)]
         if m == "epk":
             vals = vals + epk_values(rng)
+        b64_member = m in ("apu", "apv", "p2s", "iv", "tag", "x5t")
+        if b64_member:
+            # members that hold base64url text: every way such a text can be wrong (the standard alphabet's '+' and '/', padding, impossible lengths ...)
+            vals = vals + ["+/+/", "AA+A", "AAA/", "A/==", "AAAAA", "A", "é", " AAAA", "AAAA\n", "AA=A", "AAAA====", "\x00AAA", "A" * 20001, "-_-_", "AAAAAAAAAAAAAAAA"]
         for v in vals:
             h = {**ph, m: copy.deepcopy(v)}
             desc = {"alg": alg, "member": m, "value": v}
@@ -313,7 +317,7 @@ def grammar_jwe(fz: Fz, rng):
                 else:
                     rest = {k: x for k, x in ph.items() if k != m}
                     flat, gen_ = json_forms(rest, {m: copy.deepcopy(v)} if where == "unprotected" else None, {m: copy.deepcopy(v)} if where == "recipient" else None)
-                for name, ep in jeps[:1]:
+                for name, ep in (jeps if b64_member or m in ("epk", "alg", "p2c") else jeps[:1]):
                     fz.run("member-type", name, lambda ep=ep, flat=flat: ep(flat), {**desc, "form": "flat", "where": where})
                     fz.run("member-type", name, lambda ep=ep, gen_=gen_: ep(gen_), {**desc, "form": "general", "where": where})
         if fz.ctx.out_of_time():
